@@ -338,3 +338,112 @@ Proof.
       * exists pv. split; [lia|exact Hp].
       * destruct (Nat.eq_dec pv k) as [->|Hne]; [congruence|]. exists pv. split; [lia|exact Hp].
 Qed.
+
+(* ---------------- deepening round 3: run count, count interval, list level, ---------------- *)
+Lemma fold_runs_acc per s firsts a :
+  fold_left (fun a f => (a + (per - (if N.eqb f s then 1 else 0)))%nat) firsts a =
+  (a + fold_left (fun a f => (a + (per - (if N.eqb f s then 1 else 0)))%nat) firsts O)%nat.
+Proof.
+  revert a; induction firsts as [|f r IH]; intros a; cbn [fold_left]; [lia|].
+  rewrite IH. rewrite (IH (0 + _)%nat). lia.
+Qed.
+
+Theorem runs_for_shard_spec per firsts s : (1 <= per)%nat ->
+  runs_for_shard per firsts s = (per * List.length firsts - count_occ N.eq_dec firsts s)%nat.
+Proof.
+  intros Hp. unfold runs_for_shard. induction firsts as [|f r IH]; cbn [fold_left List.length count_occ]; [lia|].
+  rewrite fold_runs_acc, IH.
+  pose proof (count_occ_bound N.eq_dec s r) as Hb.
+  destruct (N.eq_dec f s) as [->|Hne].
+  - rewrite N.eqb_refl. nia.
+  - apply N.eqb_neq in Hne. rewrite Hne. nia.
+Qed.
+
+Lemma runs_for_shard_le per firsts s : (runs_for_shard per firsts s <= per * List.length firsts)%nat.
+Proof.
+  unfold runs_for_shard. induction firsts as [|f r IH]; cbn [fold_left List.length]; [lia|].
+  rewrite fold_runs_acc. destruct (f =? s); nia.
+Qed.
+
+Lemma memb_app p a b : memb p (a ++ b) = memb p a || memb p b.
+Proof. unfold memb. apply existsb_app. Qed.
+
+Lemma filter_length_le_imp {A} (f g : A -> bool) l :
+  (forall x, In x l -> f x = true -> g x = true) ->
+  (List.length (filter f l) <= List.length (filter g l))%nat.
+Proof.
+  induction l as [|x l IH]; intros H; [reflexivity|]. cbn [filter].
+  assert (List.length (filter f l) <= List.length (filter g l))%nat as Hl
+      by (apply IH; intros y I; apply H; now right).
+  destruct (f x) eqn:Ef.
+  - rewrite (H x (or_introl eq_refl) Ef). cbn [List.length]. lia.
+  - destruct (g x); cbn [List.length]; lia.
+Qed.
+
+Lemma free_ports_mono n s lo hi pre busy :
+  (List.length (free_ports n s lo hi (pre ++ busy)) <= List.length (free_ports n s lo hi pre))%nat.
+Proof.
+  unfold free_ports. apply filter_length_le_imp. intros x _. rewrite memb_app.
+  destruct (memb x pre); [discriminate|reflexivity].
+Qed.
+
+Theorem shard_count_bounds_spec n lo hi per firsts pre busy s :
+  0 < n -> s < n -> lo <= hi -> hi <= u16_max ->
+  shard_count_bounds n lo hi per firsts pre busy s =
+    (Nat.min (runs_for_shard per firsts s) (List.length (free_ports n s lo hi (pre ++ busy))),
+     Nat.min (runs_for_shard per firsts s) (List.length (free_ports n s lo hi pre))) /\
+  (fst (shard_count_bounds n lo hi per firsts pre busy s) <= snd (shard_count_bounds n lo hi per firsts pre busy s))%nat /\
+  (snd (shard_count_bounds n lo hi per firsts pre busy s) <= per * List.length firsts)%nat.
+Proof.
+  intros Hn Hs Hle Hhi. unfold shard_count_bounds.
+  rewrite !(open_many_length n s lo hi _ _ Hn Hs Hle Hhi), seq_length. cbn [fst snd].
+  pose proof (free_ports_mono n s lo hi pre busy). pose proof (runs_for_shard_le per firsts s).
+  repeat split; lia.
+Qed.
+
+(* list level: what a list accepted by accept_conns guarantees *)
+Theorem accept_conns_list n lo hi pre obs s :
+  lo <= hi + 1 ->
+  accept_conns n lo hi pre obs = true -> NoDup (map fst obs) ->
+  (List.length (filter (fun c => N.eqb (snd c) s) obs) <= List.length (free_ports n s lo hi pre))%nat.
+Proof.
+  intros Hle Ha ND.
+  rewrite <- (map_length fst (filter (fun c => N.eqb (snd c) s) obs)).
+  apply NoDup_incl_length.
+  - clear Ha. induction obs as [|[p sh] r IH]; cbn [filter map]; [constructor|].
+    cbn [map fst] in ND. inversion ND as [|? ? Hx ND']; subst.
+    destruct (N.eqb (snd (p, sh)) s); [|now apply IH].
+    cbn [map fst]. constructor; [|now apply IH].
+    intros I. apply Hx. apply in_map_iff in I. destruct I as [c [E I]].
+    apply filter_In in I. apply in_map_iff. exists c. tauto.
+  - intros p I. apply in_map_iff in I. destruct I as [[p' sh] [E I]]. cbn [fst] in E. subst p'.
+    apply filter_In in I. destruct I as [I Es]. cbn [snd] in Es. apply N.eqb_eq in Es. subst sh.
+    destruct (proj1 (accept_conns_iff n lo hi pre obs) Ha p s I) as (Hr & Hm & Hp).
+    unfold free_ports. apply filter_In. split.
+    + apply spec_ports_In; [exact Hle|tauto].
+    + destruct (memb p pre) eqn:E; [|reflexivity]. apply memb_In in E. contradiction.
+Qed.
+
+(* completeness of accept_draw *)
+Theorem accept_draw_complete n s lo hi idx :
+  (idx < Nat.max 1 (List.length (ports_for_shard n s lo hi)))%nat ->
+  accept_draw n s lo hi (draw_port n s lo hi idx) = true.
+Proof.
+  intros H. unfold accept_draw, draw_port.
+  destruct (ports_for_shard n s lo hi) as [|a l] eqn:E.
+  - destruct idx; reflexivity.
+  - destruct (nth_error (a :: l) idx) as [p|] eqn:En.
+    + apply existsb_eqb_In. eapply nth_error_In; eassumption.
+    + apply nth_error_None in En. cbn [List.length] in *. lia.
+Qed.
+
+(* a starved shard has no observation in an accepted list *)
+Theorem accept_conns_starved_none n lo hi pre obs s :
+  accept_conns n lo hi pre obs = true -> starvedb n s lo hi pre = true ->
+  filter (fun c => N.eqb (snd c) s) obs = [].
+Proof.
+  intros Ha Hst. apply filter_nil_all. intros [p sh] I. cbn [snd].
+  destruct (N.eqb sh s) eqn:E; [|reflexivity]. apply N.eqb_eq in E. subst sh.
+  unfold accept_conns in Ha. rewrite forallb_forall in Ha. specialize (Ha _ I). cbn [fst snd] in Ha.
+  apply accept_conn_not_starved in Ha. congruence.
+Qed.
